@@ -13,7 +13,7 @@
 EXTENDS Naturals, Integers, Sequences, FiniteSets, Json, IOUtils, TLC
 
 Rec == ndJsonDeserialize(IOEnv.TRACE)
-VARIABLES l, clientText, clientCfg, published, tainted
+VARIABLES l, clientText, clientCfg, published, tainted, announced
 
 Urls == {0, 1, 2, 3, 4, 5}
 \* tainted: urls left stale by an overlapping batch (already reported); cleared when the client
@@ -23,28 +23,30 @@ Elems(s) == {s[i] : i \in DOMAIN s}
 \* is the last publish what a fresh server would say about the client's text under the client's configuration?
 UpToDate(u) == IF clientText[u] = "none" THEN \E x \in published[u] : x.t = "none"
                ELSE \E x \in published[u] : x.t = clientText[u] /\ x.c = clientCfg
-TraceInit == l = 1 /\ clientText = [u \in Urls |-> "none"] /\ clientCfg = "c0" /\ published = [u \in Urls |-> Nothing] /\ tainted = {}
+TraceInit == l = 1 /\ clientText = [u \in Urls |-> "none"] /\ clientCfg = "c0" /\ published = [u \in Urls |-> Nothing] /\ tainted = {} /\ announced = TRUE
 Step(e) ==
-  CASE e.ev = "Reset" -> clientText' = [u \in Urls |-> "none"] /\ clientCfg' = "c0" /\ published' = [u \in Urls |-> Nothing] /\ tainted' = {}
+  CASE e.ev = "Reset" -> clientText' = [u \in Urls |-> "none"] /\ clientCfg' = "c0" /\ published' = [u \in Urls |-> Nothing] /\ tainted' = {} /\ announced' = TRUE
     [] e.ev = "Recv" ->
          /\ clientText' = CASE e.kind \in {"open", "change"} -> [clientText EXCEPT ![e.url] = e.text]
                             [] e.kind \in {"close", "delete"} -> [clientText EXCEPT ![e.url] = "none"]
                             [] OTHER -> clientText
-         /\ clientCfg' = IF e.kind = "config" THEN e.cfg ELSE clientCfg
+         /\ clientCfg' = IF e.kind \in {"config", "silentcfg"} THEN e.cfg ELSE clientCfg
+         \* settings changed without a notification: nothing is promised until the change is announced
+         /\ announced' = (IF e.kind = "silentcfg" THEN FALSE ELSE IF e.kind = "config" THEN TRUE ELSE announced)
          /\ tainted' = IF e.kind \in {"open", "change", "close", "delete"} THEN tainted \ {e.url} ELSE tainted
          /\ UNCHANGED published
-    [] e.ev = "Sched" -> UNCHANGED <<clientText, clientCfg, published, tainted>>
+    [] e.ev = "Sched" -> UNCHANGED <<clientText, clientCfg, published, tainted, announced>>
     [] e.ev = "Pub" -> /\ published' = IF e.url \in Urls THEN [published EXCEPT ![e.url] = Elems(e.ids)] ELSE published
-                       /\ UNCHANGED <<clientText, clientCfg, tainted>>
+                       /\ UNCHANGED <<clientText, clientCfg, tainted, announced>>
     [] e.ev = "Quiescent" ->
-         /\ UNCHANGED <<clientText, clientCfg, published>>
-         /\ LET bad == {u \in Urls : ~UpToDate(u)} \ tainted IN
+         /\ UNCHANGED <<clientText, clientCfg, published, announced>>
+         /\ LET bad == IF announced THEN {u \in Urls : ~UpToDate(u)} \ tainted ELSE {} IN
             /\ tainted' = IF e.overlap THEN tainted \cup bad ELSE tainted
             /\ IF bad = {} THEN TRUE
                ELSE IF e.overlap THEN PrintT(<<"REJECT", l, "stale-last-word-after-overlapping-handlers", CHOOSE u \in bad : TRUE>>)
                ELSE PrintT(<<"REJECT", l, "stale-last-word-after-sequential-handling", CHOOSE u \in bad : TRUE>>)
-    [] e.ev = "Stuck" -> UNCHANGED <<clientText, clientCfg, published, tainted>> /\ PrintT(<<"REJECT", l, "handler-never-finished", 0>>)
-    [] OTHER -> UNCHANGED <<clientText, clientCfg, published, tainted>> /\ PrintT(<<"REJECT", l, "unknown-event", 0>>)
+    [] e.ev = "Stuck" -> UNCHANGED <<clientText, clientCfg, published, tainted, announced>> /\ PrintT(<<"REJECT", l, "handler-never-finished", 0>>)
+    [] OTHER -> UNCHANGED <<clientText, clientCfg, published, tainted, announced>> /\ PrintT(<<"REJECT", l, "unknown-event", 0>>)
 
 TraceNext == l <= Len(Rec) /\ Step(Rec[l]) /\ l' = l + 1
 Consumed == PrintT(<<"CONSUMED", TLCGet("stats").diameter - 1>>)
